@@ -177,7 +177,7 @@ pub fn strategy(flow_focus: bool, max: usize, max_streams: usize) -> impl Strate
     // who withholds credit: 0 = the client only, 1 = the backend only, 2 = both (head-of-line finding: safety
     // oracles only when it stalls), 3 = nobody
     let mode = if flow_focus { prop_oneof![3 => Just(0u8), 3 => Just(1u8), 1 => Just(2u8), 1 => Just(3u8)].boxed() } else { prop_oneof![1 => Just(2u8), 3 => Just(3u8)].boxed() };
-    (any::<u64>(), any::<bool>(), peer(flow_focus), peer(flow_focus), prop::collection::vec(stream_spec(max), 1..=max_streams), mode, proptest::option::weighted(0.25, (1u16..80, 0u16..40)), proptest::option::weighted(if flow_focus { 0.0 } else { 0.08 }, (0u16..200, 2000u16..2600, 10usize..13, 20_000usize..60_000))).prop_map(
+    (any::<u64>(), any::<bool>(), peer(flow_focus), peer(flow_focus), prop::collection::vec(stream_spec(max), 1..=max_streams), mode, proptest::option::weighted(0.25, (1u16..80, 0u16..40)), (if flow_focus { Just(None).boxed() } else { proptest::option::weighted(0.08, (0u16..200, 2000u16..2600, 10usize..13, 20_000usize..60_000)).boxed() })).prop_map(
         move |(seed, backend_h2, mut client, mut backend, mut streams, mode, slow_settings, bulk)| {
             if flow_focus {
                 // keep transfers short enough for drip schedules to finish: body sizes capped
